@@ -64,7 +64,10 @@ func pypiBase(r *RNG, p *Pool) string {
 	if r.Chance(35) {
 		return r.Pick([]string{"1", "1.2", "1.2.3", "1.2.3.4", "0", "0.0", "1+a", "1.2+a", "1!1.2", "1!2", "1a1", "1.2a1", "1.2.post1",
 			"1.2.dev1", "9223372036854775807", "9223372036854775807.1", "1.9223372036854775807", "1.9223372036854775807.0",
-			"9223372036854775807+a", "9223372036854775806.0", "9223372036854775808", "1.9223372036854775808", "01.02", "1.2 ", "", ".", "*", "1.*", "1.2rc1.post2.dev3+l"})
+			"9223372036854775807+a", "9223372036854775806.0", "9223372036854775808", "1.9223372036854775808", "01.02", "1.2 ", "", ".", "*", "1.*", "1.2rc1.post2.dev3+l",
+			"1!1", "1!1.2.3", "2!0", "0!1.2", "00!1.2", "01!1.2", "9223372036854775807!1.2", "9223372036854775808!1", "1!9223372036854775807",
+			"1!1.9223372036854775807", "1!1.2a1", "1!1.2.post1", "1!1.2.dev0", "1!1+l", "1.0a1", "1.0.post2", "1.0.dev3", "1.2.3.4.5", "0.0.0",
+			"1!", "!1", "1!!2", "1.2.", "1..2", " 1.2", "1 "})
 	}
 	return strings.TrimSpace(r.Pick(p.Strs))
 }
